@@ -208,43 +208,138 @@ theorem splitArray_render (base digs : List Char) (hb : base ≠ []) (hd : digs 
 
 /-! ### enum values written `a**b` -/
 
-theorem uintPow_spec (fuel : Nat) : ∀ (b e r : Nat), e < 2 ^ fuel → r < 2 ^ 64 → uintPow fuel b e r = (r * b ^ e) % 2 ^ 64 := by
-  induction fuel with
-  | zero => intro b e r he hr; simp at he; subst he; simp [uintPow, Nat.mod_eq_of_lt hr]
-  | succ fuel ih =>
-    intro b e r he hr
-    simp only [uintPow]
-    have hq : e / 2 < 2 ^ fuel := by rw [Nat.pow_succ] at he; omega
-    have hsplit : b ^ e = b ^ (e % 2) * (b * b) ^ (e / 2) := by
-      conv => lhs; rw [← Nat.mod_add_div e 2]
-      rw [Nat.pow_add, Nat.pow_mul, Nat.pow_two]
-    by_cases hz : e / 2 = 0
-    · simp only [hz, if_true]
-      have he1 : e = e % 2 := by omega
-      by_cases hodd : e % 2 = 1
-      · simp only [hodd, if_true]; rw [he1, hodd]; simp
-      · have h0 : e % 2 = 0 := by omega
-        simp only [h0]; rw [he1, h0]; simp [Nat.mod_eq_of_lt hr]
-    · simp only [hz, if_false]
-      by_cases hodd : e % 2 = 1
-      · simp only [hodd, if_true]
-        rw [ih _ _ _ hq (Nat.mod_lt _ (by decide)), hsplit, hodd]
-        simp only [Nat.pow_one]
-        rw [Nat.mul_mod, Nat.mod_mod, Nat.pow_mod, Nat.mod_mod, ← Nat.pow_mod, ← Nat.mul_mod, Nat.mul_assoc]
-      · have h0 : e % 2 = 0 := by omega
-        simp only [h0, show ((0 : Nat) = 1) = False by simp, if_false]
-        rw [ih _ _ _ hq hr, hsplit, h0]
-        simp only [Nat.pow_zero, Nat.one_mul]
-        rw [Nat.mul_mod, Nat.pow_mod, Nat.mod_mod, ← Nat.pow_mod, ← Nat.mul_mod]
+theorem pow_split (b e : Nat) : b ^ e = b ^ (e % 2) * (b * b) ^ (e / 2) := by
+  conv => lhs; rw [← Nat.mod_add_div e 2]
+  rw [Nat.pow_add, Nat.pow_mul, Nat.pow_two]
 
-/-- **C18 (a**b).** `uintPow` is exponentiation in 64-bit arithmetic: whenever the power fits, the constant is the XML value. -/
-theorem power_value (a b : Nat) (hb : b < 2 ^ 64) (hfit : a ^ b < 2 ^ 64) : uintPow 64 a b 1 = a ^ b := by
-  rw [uintPow_spec 64 a b 1 hb (by decide)]
-  simp [Nat.mod_eq_of_lt hfit]
+/-- a power that fits: no step overflows and the result is exact (`r ≥ 1` or `b = 0`: the accumulator starts at 1) -/
+theorem uintPow_fits (fuel : Nat) : ∀ (b e r : Nat), e < 2 ^ fuel → (1 ≤ r ∨ b = 0) → r * b ^ e < 2 ^ 64 →
+    uintPow fuel b e r = some (r * b ^ e) := by
+  induction fuel with
+  | zero => intro b e r he _ _; simp at he; subst he; simp [uintPow]
+  | succ fuel ih =>
+    intro b e r he hrb hfit
+    have hq : e / 2 < 2 ^ fuel := by rw [Nat.pow_succ] at he; omega
+    have hsplit := pow_split b e
+    unfold uintPow
+    by_cases hodd : e % 2 = 1
+    · -- odd exponent: result * base is a factor of the final value
+      rw [hsplit, hodd, Nat.pow_one, ← Nat.mul_assoc] at hfit
+      have hpos : 1 ≤ (b * b) ^ (e / 2) ∨ b = 0 := by
+        rcases Nat.eq_zero_or_pos b with h | h
+        · exact Or.inr h
+        · exact Or.inl (Nat.pow_pos (Nat.mul_pos h h))
+      have hrb1 : r * b < 2 ^ 64 := by
+        rcases hpos with h | h
+        · exact Nat.lt_of_le_of_lt (Nat.le_mul_of_pos_right _ h) hfit
+        · subst h; simp
+      have hn : ¬ (e % 2 = 1 ∧ 2 ^ 64 ≤ r * b) := by omega
+      rw [if_neg hn]
+      simp only [hodd, if_true]
+      by_cases hz : e / 2 = 0
+      · simp only [hz, if_true]
+        have : e = 1 := by omega
+        subst this; simp
+      · simp only [hz, if_false]
+        have hrb' : 1 ≤ r * b ∨ b * b = 0 := by
+          rcases hrb with h | h
+          · rcases Nat.eq_zero_or_pos b with hb | hb
+            · subst hb; exact Or.inr rfl
+            · exact Or.inl (Nat.mul_pos h hb)
+          · subst h; exact Or.inr rfl
+        have hbb : ¬ 2 ^ 64 ≤ b * b := by
+          rcases hrb' with h | h
+          · have h1 : 1 ≤ e / 2 := by omega
+            have h2 : b * b ≤ (b * b) ^ (e / 2) := by
+              calc b * b = (b * b) ^ 1 := by simp
+                _ ≤ (b * b) ^ (e / 2) := by
+                  rcases Nat.eq_zero_or_pos (b * b) with h0 | h0
+                  · rw [h0]; simp
+                  · exact Nat.pow_le_pow_right h0 h1
+            have h3 : (b * b) ^ (e / 2) ≤ r * b * (b * b) ^ (e / 2) := Nat.le_mul_of_pos_left _ h
+            omega
+          · rw [h]; decide
+        simp only [hbb, if_false]
+        rw [ih (b * b) (e / 2) (r * b) hq hrb' hfit, hsplit, hodd, Nat.pow_one, Nat.mul_assoc]
+    · have h0 : e % 2 = 0 := by omega
+      rw [hsplit, h0, Nat.pow_zero, Nat.one_mul] at hfit
+      have hn : ¬ (e % 2 = 1 ∧ 2 ^ 64 ≤ r * b) := by omega
+      rw [if_neg hn]
+      simp only [h0, show ((0 : Nat) = 1) = False by simp, if_false]
+      by_cases hz : e / 2 = 0
+      · simp only [hz, if_true]
+        have : e = 0 := by omega
+        subst this; simp
+      · simp only [hz, if_false]
+        have hrb' : 1 ≤ r ∨ b * b = 0 := by
+          rcases hrb with h | h
+          · exact Or.inl h
+          · subst h; exact Or.inr rfl
+        have hbb : ¬ 2 ^ 64 ≤ b * b := by
+          rcases hrb' with h | h
+          · have h1 : 1 ≤ e / 2 := by omega
+            have h2 : b * b ≤ (b * b) ^ (e / 2) := by
+              calc b * b = (b * b) ^ 1 := by simp
+                _ ≤ (b * b) ^ (e / 2) := by
+                  rcases Nat.eq_zero_or_pos (b * b) with h0' | h0'
+                  · rw [h0']; simp
+                  · exact Nat.pow_le_pow_right h0' h1
+            have h3 : (b * b) ^ (e / 2) ≤ r * (b * b) ^ (e / 2) := Nat.le_mul_of_pos_left _ h
+            omega
+          · rw [h]; decide
+        simp only [hbb, if_false]
+        rw [ih (b * b) (e / 2) r hq hrb' hfit, hsplit, h0, Nat.pow_zero, Nat.one_mul]
+
+/-- a power that does not fit is reported, never wrapped -/
+theorem uintPow_overflow (fuel : Nat) : ∀ (b e r : Nat), e < 2 ^ fuel → 2 ^ 64 ≤ r * b ^ e → r < 2 ^ 64 →
+    uintPow fuel b e r = none := by
+  induction fuel with
+  | zero => intro b e r he hbig hr; simp at he; subst he; simp at hbig; omega
+  | succ fuel ih =>
+    intro b e r he hbig hr
+    have hq : e / 2 < 2 ^ fuel := by rw [Nat.pow_succ] at he; omega
+    have hsplit := pow_split b e
+    unfold uintPow
+    by_cases hodd : e % 2 = 1
+    · rw [hsplit, hodd, Nat.pow_one, ← Nat.mul_assoc] at hbig
+      by_cases hov : 2 ^ 64 ≤ r * b
+      · simp [hodd, hov]
+      · have hn : ¬ (e % 2 = 1 ∧ 2 ^ 64 ≤ r * b) := fun h => hov h.2
+        rw [if_neg hn]
+        simp only [hodd, if_true]
+        by_cases hz : e / 2 = 0
+        · rw [hz] at hbig; simp at hbig; omega
+        · simp only [hz, if_false]
+          by_cases hbb : 2 ^ 64 ≤ b * b
+          · simp [hbb]
+          · simp only [hbb, if_false]
+            exact ih (b * b) (e / 2) (r * b) hq hbig (by omega)
+    · have h0 : e % 2 = 0 := by omega
+      rw [hsplit, h0, Nat.pow_zero, Nat.one_mul] at hbig
+      have hn : ¬ (e % 2 = 1 ∧ 2 ^ 64 ≤ r * b) := by omega
+      rw [if_neg hn]
+      simp only [h0, show ((0 : Nat) = 1) = False by simp, if_false]
+      by_cases hz : e / 2 = 0
+      · rw [hz] at hbig; simp at hbig; omega
+      · simp only [hz, if_false]
+        by_cases hbb : 2 ^ 64 ≤ b * b
+        · simp [hbb]
+        · simp only [hbb, if_false]
+          exact ih (b * b) (e / 2) r hq hbig hr
+
+/-- **C18 (a**b).** `uintPow` is exact exponentiation: whenever the power fits 64 bits, the constant is the XML value … -/
+theorem power_value (a b : Nat) (hb : b < 2 ^ 64) (hfit : a ^ b < 2 ^ 64) : uintPow 64 a b 1 = some (a ^ b) := by
+  have := uintPow_fits 64 a b 1 hb (Or.inl (Nat.le_refl 1)) (by simpa using hfit)
+  simpa using this
+
+/-- … and when it does not fit, the definition is refused ("a definition the generator cannot express is reported as an error"),
+    never turned into a wrapped constant -/
+theorem power_value_too_big (a b : Nat) (hb : b < 2 ^ 64) (hbig : 2 ^ 64 ≤ a ^ b) : uintPow 64 a b 1 = none :=
+  uintPow_overflow 64 a b 1 hb (by simpa using hbig) (by decide)
 
 example : parseValue "2**31" = some 2147483648 ∧ parseValue "0x1F" = some 31 ∧ parseValue "0b101" = some 5 ∧ parseValue "17" = some 17 := by decide
-/-- outside the domain: a power that does not fit wraps silently (`2**64` becomes 0); the specification says "not a value" -/
-example : parseValue "2**64" = some 0 := by decide
+/-- a power that does not fit is not a value (before the repair 1ed… `2**64` became the constant 0) -/
+example : parseValue "2**64" = none ∧ parseValue "3**41" = none ∧ parseValue "3**40" = some 12157665459056928801 := by decide
 
 end Mav.C18
 namespace Mav.C18
